@@ -13,7 +13,7 @@ META = {
                    'transformed-image constructors conjugate the matrix with the half-pixel translations and each shade_span fetches with '
                    'the function matching its type at consecutive x; R13.3 the integer fast paths clamp y on both sides / reduce both axes '
                    'with rem_euclid by their own dimension and index row*width + column; R13.4 draw_image helpers are axis-paired.',
-    'decides': ['R13.1 shader selection table', 'R13.2 half-pixel conjugation and fetch function agreement', 'R13.3 integer fast-path run structure', 'R13.4 draw_image helper geometry', 'R11.2 matrix = inverse CTM then source transform'],
+    'decides': ['R13.5 integer-translation test', 'R13.1 shader selection table', 'R13.2 half-pixel conjugation and fetch function agreement', 'R13.3 integer fast-path run structure', 'R13.4 draw_image helper geometry', 'R11.2 matrix = inverse CTM then source transform'],
     'does_not_decide': ['sampling arithmetic (16.16 conversion, bilinear weights, fetch clamping/wrapping inside sw-composite)', 'equality of fast path and general sampler as values'],
     'assumptions': ['sw_composite fetch_bilinear/fetch_nearest[_alpha]::<PadFetch|RepeatFetch> sample as documented (external)', 'MatrixFixedPoint::transform applies the fixed matrix (external)'],
     'trusted_base': ['sw-composite 0.7.16', 'euclid 0.22.14'],
@@ -353,6 +353,41 @@ def r13_3(ctx):
     ctx.check(ok, R, key + '|runs advance', b.loc(), 'every writing loop advances the output index and decrements count on each cycle', 'a run of the pad shader writes dest without advancing the output index and count on every cycle')
 
 
+def r13_5(ctx):
+    """is_integer_transform: Some((x, y)) only for the identity linear part and an integer translation"""
+    R = 'R13.5'
+    b = ctx.body('raqote::blitter::is_integer_transform', R)
+    an = ctx.an(b)
+    key = 'blitter::is_integer_transform'
+    somes = []
+    for bi, k2, s in b.statements():
+        if s['k'] == 'assign' and s['rv']['k'] == 'agg' and s['rv'].get('v') == 'Some' and bi in an.cfg.reach:
+            somes.append((bi, an.rvalue_term(bi, k2, s['rv'])))
+    if not ctx.check(len(somes) == 1, R, key + '|one Some', b.loc(), 'one Some(..) result', 'expected exactly one Some(..) result, found %d' % len(somes)):
+        return
+    bi, t = somes[0]
+    def m(t2, name):
+        r, nm = field_path(strip_casts(t2, ()))
+        return r == ('param', 1) and nm == [name]
+    def trunc(t2, name):
+        return t2[0] == 'cast' and t2[1] == 'FloatToInt' and m(t2[3], name)
+    pt = strip_all(t[4][0][1])
+    okp = is_call(pt, 'Point2D::<T, U>::new') and trunc(pt[2][0], 'm31') and trunc(pt[2][1], 'm32')
+    ctx.check(okp, R, key + '|offset', b.loc(), 'Some((m31 as i32, m32 as i32))', 'the integer offset returned is %s, expected (m31 as i32, m32 as i32)' % fmt(b, pt))
+    gs = normalized_guards(ctx, b, bi)
+    need = {'m11': 1.0, 'm12': 0.0, 'm21': 0.0, 'm22': 1.0}
+    for name, val in need.items():
+        ok = any(op == 'Eq' and ((m(a, name) and const_val(b2) == val) or (b2 is not None and m(b2, name) and const_val(a) == val)) for op, a, b2, si in gs)
+        ctx.check(ok, R, key + '|%s == %g' % (name, val), b.loc(), '%s == %g holds where Some is returned' % (name, val),
+                  'is_integer_transform returns Some without testing %s == %g: a matrix with a non-identity linear part (shear/scale) is taken for an integer translation and drawn with the untransformed image fast path' % (name, val))
+    for name in ('m31', 'm32'):
+        def rt(t2):
+            return t2[0] == 'cast' and t2[1] == 'IntToFloat' and trunc(t2[3], name)
+        ok = any(op == 'Eq' and ((rt(a) and b2 is not None and m(b2, name)) or (b2 is not None and rt(b2) and m(a, name))) for op, a, b2, si in gs)
+        ctx.check(ok, R, key + '|%s integral' % name, b.loc(), '(%s as i32) as f32 == %s holds where Some is returned' % (name, name),
+                  'is_integer_transform returns Some without testing that %s is an integer (round trip through i32 compared with %s itself): a fractional translation would be truncated by the integer fast path' % (name, name))
+
+
 def run(ctx):
     import engine
-    engine.run_rules(ctx, [r13_1, r13_2, r13_3, r13_4])
+    engine.run_rules(ctx, [r13_1, r13_2, r13_3, r13_4, r13_5])
